@@ -356,19 +356,24 @@ impl Part for C10E2X {
     fn strategy(_tier: Tier) -> BoxedStrategy<XCase> {
         Just(XCase { programs: vec![], choices: vec![], max_preempt: 0 }).boxed()
     }
-    fn directed(tier: Tier) -> Vec<XCase> {
+    fn enumerate(tier: Tier, visit: &mut dyn FnMut(&XCase, Outcome) -> bool) {
         let bound = if tier == Tier::Quick { 2 } else { 4 };
-        let mut out = vec![];
         for programs in small_programs() {
             let case = Case { programs: programs.clone(), schedule: vec![] };
             let (_runs, complete) = crate::e2::enumerate_schedules(3_000_000, |choices| {
-                let (_, log) = run_case(&case, false, Sched::Explicit(choices.clone(), Some(bound)));
-                out.push(XCase { programs: programs.clone(), choices: log.iter().map(|c| c.0).collect(), max_preempt: bound });
+                let (mut o, log) = run_case(&case, false, Sched::Explicit(choices.clone(), Some(bound)));
+                o.nontrivial = log.iter().any(|c| c.0 != 0);
+                let xc = XCase { programs: programs.clone(), choices: log.iter().map(|c| c.0).collect(), max_preempt: bound };
+                if !visit(&xc, o) {
+                    return vec![];
+                }
                 log
             });
-            assert!(complete, "enumeration cap hit");
+            if !complete {
+                // the visitor stopped the enumeration (violation found)
+                return;
+            }
         }
-        out
     }
     fn run(case: &XCase, want_trace: bool) -> Outcome {
         let c = Case { programs: case.programs.clone(), schedule: vec![] };
